@@ -364,7 +364,7 @@ func verifyC02(c *C02Case, dir string, acked, inflight []int) error {
 		if h.IsInconclusive(err) {
 			// C02: recovery must catch up; decide by a second attempt
 			if err2 := db.Quiesce(); err2 != nil {
-				return fmt.Errorf("after restart ingestion did not catch up (two bounded waits expired): %v", err2)
+				return fmt.Errorf("after restart ingestion did not catch up (two bounded waits expired): %v", strings.Replace(err2.Error(), "inconclusive: ", "", -1))
 			}
 		} else {
 			return err
